@@ -68,7 +68,28 @@ def apply_edit(root, nodes, edit):
         newt.parent = par
 
 
-def check_tree(C, drv, root, shape, tag, edit=None):
+class configured_eps:
+    """`opytimizer.utils.constants.EPSILON` assigned `value` for the duration of the block (None: left alone) and put
+    back afterwards: the protection constant is a public module attribute, the library reads it where it is used"""
+
+    def __init__(self, value):
+        self.value = value
+
+    def __enter__(self):
+        c = lib.load()['c']
+        self.shipped = c.EPSILON
+        if self.value is not None:
+            c.EPSILON = float(self.value)
+
+    def __exit__(self, *a):
+        lib.load()['c'].EPSILON = self.shipped
+        return False
+
+
+def check_tree(C, drv, root, shape, tag, edit=None, eps_cfg=None):
+    """`eps_cfg`: the value the library's protection constant has been re-configured to by the caller (None: shipped).
+    The oracle always uses the constant the library is configured with *now*; the Lean model is about the shipped constant,
+    so re-configured cases are judged by the oracle only."""
     L = lib.load()
     np = L['np']
     nodes, _ = T.walk(root)
@@ -78,6 +99,8 @@ def check_tree(C, drv, root, shape, tag, edit=None):
         val = root.position
     except Exception as ex:
         rp0 = dict(how='eval', tree=T.enc_tree(root), arrays=[None if s_ is None else enc_bits(s_.reshape(-1)) for s_ in snaps], shape=list(shape))
+        if eps_cfg is not None:
+            rp0['eps'] = float(eps_cfg)
         if edit is not None:
             rp0 = dict(edit['pre'], edit=dict(how=edit['how'], t=edit['t'], d=edit['d'], f=edit.get('f'), shift=edit.get('shift', 0)))
         C.issue('evaluation-raised', 'oracle', rp0, error=type(ex).__name__ + ': ' + str(ex)[:80])
@@ -86,6 +109,8 @@ def check_tree(C, drv, root, shape, tag, edit=None):
     after = T.canon(root)
     rp = dict(how='eval', tree=T.enc_tree(root), arrays=[None if s is None else enc_bits(s.reshape(-1)) for s in snaps],
               shape=list(shape))
+    if eps_cfg is not None:
+        rp['eps'] = float(eps_cfg)
     if edit is not None:
         # replay = the tree before the edit, one evaluation, the edit, the evaluation under test
         rp = dict(edit['pre'], edit=dict(how=edit['how'], t=edit['t'], d=edit['d'], f=edit.get('f'), shift=edit.get('shift', 0)))
@@ -115,7 +140,7 @@ def check_tree(C, drv, root, shape, tag, edit=None):
             C.issue('operator-value', 'oracle', rp, op=n.name, got=me.tolist(), reference=ref.tolist())
         if np.any(~np.isfinite(me)) or np.any(y + eps == 0):
             special = True
-    if lines:
+    if lines and eps_cfg is None:
         # the whole function as the translator read it (guard, operand sources, terminal test, chain), on the same operands
         wouts = drv.ask_many(['w.op' + ln[4:] for ln in lines])
         for o, e, op in zip(wouts, exp, ops):
@@ -143,7 +168,7 @@ def check_tree(C, drv, root, shape, tag, edit=None):
         edit = dict(how=how, t=C.rng.choice(terms), d=C.rng.choice(deep) if deep else None, pre=rp,
                     f=C.rng.choice(funcs), shift=C.rng.randrange(3))
         apply_edit(root, nodes, edit)
-        check_tree(C, drv, root, shape, 'edited', edit)
+        check_tree(C, drv, root, shape, 'edited', edit, eps_cfg=eps_cfg)
     C.case(key=(before, rp['arrays'][0] if rp['arrays'] else None), nontrivial=len(nodes) > 1, kind=tag,
            sample=dict(tree=before, value=np.asarray(val).tolist()) if special or len(C.samples) == 0 else None)
 
@@ -183,6 +208,27 @@ def check(ctx):
             shape = C.rng.choice([(1, 1), (2, 2), (4, 1), (2, 5)])
             terms = [pool(np, eps, shape, C.rng) for _ in range(4)]
             check_tree(C, drv, T.build(s, ops=ops, terminals=terms), shape, 'sampled-depth-3')
+        # the protection constant is the one the library is configured with *now*: utils.constants.EPSILON is assigned
+        # another value at run time (long after every module has been imported), trees over every operator are built
+        # and evaluated, and each node must be the operator with that constant applied to its children's values
+        # (terminal pools contain +-eps of the configured value, so y + eps == 0 and log(0 + eps) are reached);
+        # afterwards the shipped value is put back and must be honoured again (with the model comparison)
+        d1 = [(s, ops) for s in T.shapes_upto(1) for ops in T.labellings(s) if ops]
+        d2 = [s for s in shapes if T.shape_depth(s) == 2]
+        for new_eps in (1e-6, 0.5):
+            with configured_eps(new_eps):
+                todo = list(d1)
+                for k in range(12):
+                    s = C.rng.choice(d2)
+                    todo.append((s, C.rng.choice(list(T.labellings(s)))))
+                for s, ops in todo:
+                    shape = C.rng.choice([(1, 1), (2, 3)])
+                    terms = [pool(np, new_eps, shape, C.rng) for _ in range(3)]
+                    check_tree(C, drv, T.build(s, ops=ops, terminals=terms), shape, 'reconfigured-eps', eps_cfg=new_eps)
+            assert L['c'].EPSILON == eps
+            for s, ops in d1:
+                terms = [pool(np, eps, (2, 1), C.rng) for _ in range(3)]
+                check_tree(C, drv, T.build(s, ops=ops, terminals=terms), (2, 1), 'eps-restored')
     finally:
         drv.close()
     return C.result()
@@ -208,12 +254,14 @@ def replay(prop, payload):
     C = Comp(dict(seed=0, tier='quick'), '')
     drv = common.Driver()
     try:
-        if payload.get('edit'):
-            ed = dict(payload['edit'], pre=payload)
-            apply_edit(root, nodes, ed)
-            check_tree(C, drv, root, tuple(payload['shape']), 'edited', ed)
-        else:
-            check_tree(C, drv, root, tuple(payload['shape']), 'edited')
+        # the tree is decoded (and, for an edit, evaluated once) under the constant the failing case ran under
+        with configured_eps(payload.get('eps')):
+            if payload.get('edit'):
+                ed = dict(payload['edit'], pre=payload)
+                apply_edit(root, nodes, ed)
+                check_tree(C, drv, root, tuple(payload['shape']), 'edited', ed, eps_cfg=payload.get('eps'))
+            else:
+                check_tree(C, drv, root, tuple(payload['shape']), 'edited', eps_cfg=payload.get('eps'))
     finally:
         drv.close()
     return any(i['layer'] == 'oracle' for i in C.issues)
